@@ -5,6 +5,16 @@ HERE = os.path.dirname(os.path.dirname(os.path.abspath(__file__)))
 ALL = ['C%02d' % i for i in range(1, 21)]
 
 CLAIMED = {
+ 'C01': dict(
+   technique='Lean 4 proof (Mealy fusion: lazy chain = staged fold incl. per-machine effect logs, any chain length; dispatch table total; regroup/conditional splice) + dispatch & pipeline correspondence + lazy-vs-staged oracle on real code',
+   text='C01_lazy_eq_staged_* are proved for every chain of row-phase machines and every event stream; C01_dispatch_total says no link falls through; regrouping and always-true conditionals are spliced in place. The tie to the code: every kind of link object is pushed through the real Flow and compared with classify; random pipelines run on the real lazy engine are compared with the model staged fold; and the property itself (lazy = step-by-step, regrouping, three APIs) is checked on the real code alone, incl. user callables of every kind and in-place mutators after retaining steps.',
+   note='object aliasing is not modelled (probed by mutator scenarios); user callables are sampled from a fixed zoo',
+   ref='6/C01'),
+ 'C06': dict(
+   technique='Lean 4 proof (trace shape of row-wise chains: look-ahead <= S-1 for every stream length; row-wise closed under composition) + trace correspondence + counting-source oracle',
+   text='C06_lookahead: in the lazy run of any chain of machines that release nothing at exhaustion, a row derived from source item j is delivered when at most max(j+1, min S n) items have been read, for all n, S; tied to the code by comparing the real pull/deliver interleaving of counting sources and sinks with the model trace, and by measuring the look-ahead at several lengths up to 1e5 (thorough).',
+   note='file-object / csv buffering is not look-ahead; S is read live from iterable_storage.SAMPLE_SIZE',
+   ref='6/C06'),
  'C10': dict(
    technique='Lean 4 proof (matcher = specification for every regex oracle; frame theorem for every mapSel processor) + step correspondence + frame oracle on real code',
    text='Theorems C10_matcher_spec / C10_frame_* hold for all packages, selectors and regex oracles; the model is tied to the code by the step correspondence (real processor vs compiled model on generated packages) and the frame property is re-checked on the real output of every selector-taking processor.',
